@@ -1,5 +1,6 @@
 -- GENERATED from /repo by tools (never hand-edited); regenerated on every check run.
 import ScenicModel.Model.Solid
+set_option linter.unusedVariables false
 namespace Scenic.Gen
 open Scenic.Solid
 
@@ -80,5 +81,25 @@ def convexCfg : ConvexCfg :=
     volLhs := fun o => o.vol,
     volCmp := .ge,
     volRhs := fun o => (((1 : Rat) - ((4722366482869645 / 4722366482869645213696) : Rat)) * o.hullVol) }
+
+/-- the three passes of `MeshVolumeRegion.intersects(MeshSurfaceRegion)` -/
+def surfCfg : SurfCfg := { p1Ret := false, p2Ret := true, p3Negate := false }
+
+/-- the slab of `MeshVolumeRegion.intersects(PolygonalFootprintRegion)` and the cache test / padding of
+    `PolygonalFootprintRegion.approxBoundFootprint` -/
+def slabCfg : SlabCfg :=
+  { height := fun lo hi => ((hi - lo) + (1 : Rat)),
+    center := fun lo hi => ((hi + lo) / (2 : Rat)),
+    topLhs := fun pc ph cz h => (pc + (ph / (2 : Rat))),
+    topCmp := .gt,
+    topRhs := fun pc ph cz h => (cz + (h / (2 : Rat))),
+    botLhs := fun pc ph cz h => (pc - (ph / (2 : Rat))),
+    botCmp := .lt,
+    botRhs := fun pc ph cz h => (cz - (h / (2 : Rat))),
+    conn := .and,
+    padded := fun cz h => (((100 : Rat) * (maxR (1 : Rat) cz)) * h) }
+
+/-- `MeshVolumeRegion.containsRegionInner(MeshVolumeRegion)` -/
+def innerCfg : InnerCfg := { swapped := false, negate := false }
 
 end Scenic.Gen
